@@ -524,8 +524,57 @@ def hash_twins(ctx):
     ctx.count('cases', n)
 
 
+def derived_sysex_cases(ctx):
+    """Sysex messages that were not built by the constructor from a tuple: derived with copy(data=...), from_dict, by
+    assignment and by += - from every kind of container, empty ones included.  Each holds its payload as the immutable
+    SysexData tuple, encodes to the reference bytes and decodes to an equal message."""
+    import array
+    import collections
+    n = 0
+    payloads = ((), (0,), (1, 2, 127), tuple(range(40)))
+    containers = (list, tuple, bytes, bytearray, lambda p: array.array('B', p), lambda p: iter(list(p)), collections.deque,
+                  lambda p: (x for x in p), lambda p: memoryview(bytes(p)), lambda p: range(len(p)) if tuple(p) == tuple(range(len(p))) else list(p))
+    routes = ('copy', 'from_dict', 'assign', 'iadd', 'ctor', 'copy-of-copy')
+    for p in payloads:
+        ref = midi1.encode('sysex', {'data': p})
+        for ci, cont in enumerate(containers):
+            for route in routes:
+                if route in ('assign', 'iadd') and ci in (5, 7):
+                    # (observed on the pinned tree, outside every property: assigning a one-shot iterator validates it - and
+                    # thereby uses it up - before storing it, so the payload silently becomes empty; not judged)
+                    continue
+                case = {'kind': 'derived-sysex', 'payload': list(p), 'container': getattr(cont, '__name__', f'kind{ci}'), 'route': route}
+                try:
+                    if route == 'copy':
+                        m = Message('sysex', data=(9, 9)).copy(data=cont(p))
+                    elif route == 'copy-of-copy':
+                        m = Message('sysex').copy(data=cont(p)).copy(time=3).copy()
+                    elif route == 'from_dict':
+                        m = Message.from_dict({'type': 'sysex', 'data': cont(p)})
+                    elif route == 'assign':
+                        m = Message('sysex', data=(5,))
+                        m.data = cont(p)
+                    elif route == 'iadd':
+                        m = Message('sysex')
+                        m.data += cont(p)
+                    else:
+                        m = Message('sysex', data=cont(p))
+                    d = Message.from_bytes(m.bytes(), time=m.time)
+                    ok = (m.bytes() == ref and list(m.bin()) == ref and isinstance(m.data, tuple) and tuple(m.data) == tuple(p)
+                          and d == m and m == d and d.data == m.data and type(d.data) is type(m.data) and m == Message('sysex', data=p, time=m.time))
+                    ctx.check('from_bytes==m', ok, f'derived-sysex:{route}', case,
+                              lambda: {'data': repr(m.data)[:60], 'type': type(m.data).__name__, 'decoded': repr(d.data)[:60]})
+                except Exception as exc:
+                    ctx.fail('decode raised', f'derived-sysex:{route}:{type(exc).__name__}', case, f'{type(exc).__name__}: {exc}')
+                n += 1
+    ctx.nontrivial(None, n)
+    ctx.count('cases', n)
+
+
 def run(ctx):
     hash_twins(ctx)
+    if ctx.shard == 2 % ctx.nshards:
+        derived_sysex_cases(ctx)
     phase_a(ctx)
     phase_b(ctx)
     phase_e(ctx)
@@ -541,6 +590,8 @@ def replay(ctx, case):
         a['data'] = tuple(a['data'])
     if k == 'msg':
         check_message(ctx, case['type'], a, case['ti'], case['tf'])
+    elif k == 'derived-sysex':
+        derived_sysex_cases(ctx)
     elif k == 'msg-class':
         check_message_classes(ctx, case['type'], a, case['ti'], case['tf'])
     elif k == 'hexvar':
